@@ -22,13 +22,79 @@ class SymRegex:
             return _split_ws_runs(s)
         return self._re.split(s.concretize(), maxsplit)
 
+    def findall(self, s, *a):
+        if not isinstance(s, SymStr) or a:
+            return self._re.findall(s, *a)
+        if self.pattern == r'\S+' and \
+                self.flags == _re.compile(r'\S+').flags:
+            # the maximal runs of non-whitespace characters
+            return [p for p in _split_ws_runs(s) if len(p)]
+        return self._re.findall(s.concretize())
+
     def __getattr__(self, name):
         meth = getattr(self._re, name)
+        if not callable(meth):
+            return meth
 
         def call(*a, **k):
             a = [x.concretize() if isinstance(x, SymStr) else x for x in a]
             return meth(*a, **k)
         return call
+
+
+class SymReModule:
+    """Stand-in for the ``re`` module inside the modules under test (bound
+    by the loader wherever they ``import re``): compiled patterns become
+    SymRegex objects, the module-level functions go through them.  Plain
+    strings take the real ``re`` path unchanged."""
+
+    def __init__(self, real):
+        self._real = real
+
+    def __getattr__(self, name):
+        return getattr(self._real, name)
+
+    def compile(self, pattern, flags=0):
+        if isinstance(pattern, SymRegex):
+            return pattern
+        return SymRegex(self._real.compile(pattern, flags))
+
+    def _via(self, meth, pattern, string, *a, **k):
+        flags = k.pop('flags', 0)
+        if not isinstance(string, SymStr):
+            return getattr(self._real, meth)(pattern, string, *a,
+                                             flags=flags, **k)
+        return getattr(self.compile(pattern, flags), meth)(string, *a, **k)
+
+    def split(self, pattern, string, maxsplit=0, flags=0):
+        return self._via('split', pattern, string, maxsplit, flags=flags)
+
+    def findall(self, pattern, string, flags=0):
+        return self._via('findall', pattern, string, flags=flags)
+
+    def match(self, pattern, string, flags=0):
+        return self._via('match', pattern, string, flags=flags)
+
+    def fullmatch(self, pattern, string, flags=0):
+        return self._via('fullmatch', pattern, string, flags=flags)
+
+    def search(self, pattern, string, flags=0):
+        return self._via('search', pattern, string, flags=flags)
+
+    def finditer(self, pattern, string, flags=0):
+        return self._via('finditer', pattern, string, flags=flags)
+
+    def sub(self, pattern, repl, string, count=0, flags=0):
+        if isinstance(string, SymStr):
+            string = string.concretize()
+        if isinstance(repl, SymStr):
+            repl = repl.concretize()
+        return self._real.sub(pattern, repl, string, count=count,
+                              flags=flags)
+
+
+def wrap_re(mod):
+    return mod if isinstance(mod, SymReModule) else SymReModule(mod)
 
 
 def _split_ws_runs(s):
@@ -54,6 +120,12 @@ def _split_ws_runs(s):
 
 
 def install_parser_shims():
+    """Kept for the harnesses' setup(): the loader already binds SymReModule
+    wherever a module under test imports ``re`` (so compiled patterns are
+    SymRegex objects whatever they are called and wherever they live); this
+    only covers a tokenizer pattern created some other way."""
     from oslo_policy import _parser
-    if not isinstance(_parser._tokenize_re, SymRegex):
-        _parser._tokenize_re = SymRegex(_parser._tokenize_re)
+    pat = getattr(_parser, '_tokenize_re', None)
+    if pat is not None and not isinstance(pat, SymRegex) and \
+            hasattr(pat, 'pattern'):
+        _parser._tokenize_re = SymRegex(pat)
